@@ -282,3 +282,11 @@ def c07(tier, seed):
 
 
 CHECKS.update({"C07": c07})
+
+
+def c10(tier, seed):
+    import c10 as m
+    return m.run(tier, seed)
+
+
+CHECKS.update({"C10": c10})
